@@ -95,6 +95,9 @@ func (fr *Frame) execInstr(st *State, in ssa.Instruction) {
 	case *ssa.Store:
 		p := fr.get(st, x.Addr)
 		v := fr.get(st, x.Val)
+		if escapingElemPtr(v) {
+			efail("pointer to a struct element of a slice stored (not supported by the struct-of-arrays model)")
+		}
 		fr.nonNil(st, in, p)
 		a := p.Addr
 		if a == nil {
@@ -103,7 +106,7 @@ func (fr *Frame) execInstr(st *State, in ssa.Instruction) {
 		if g := c.fieldGuard(a); g != nil {
 			fr.guardCheck(st, in, g, true, "store")
 		} else if a.Guard != nil {
-			fr.guardCheck(st, in, a.Guard, true, "elemstore")
+			fr.guardCheckC(st, in, a.Guard, true, "elemstore", a.Ref)
 		}
 		c.storeAddr(st, a, derefType(x.Addr.Type()), fr.coerce(v, derefType(x.Addr.Type())))
 	case *ssa.UnOp:
@@ -203,7 +206,7 @@ func (fr *Frame) execInstr(st *State, in ssa.Instruction) {
 		fr.vals[x] = fr.execLookup(st, x)
 	case *ssa.MapUpdate:
 		m := fr.get(st, x.Map)
-		fr.guardCheck(st, in, m.Guard, true, "mapupdate")
+		fr.guardCheckC(st, in, m.Guard, true, "mapupdate", m.X)
 		fr.checkSafe(st, in, "mapwrite", Neq(m.X, Num(0)))
 		mt := x.Map.Type().Underlying().(*types.Map)
 		c.mapSet(st, m.X, mt, fr.get(st, x.Key), fr.coerce(fr.get(st, x.Value), mt.Elem()))
@@ -260,9 +263,6 @@ func (fr *Frame) isCellAlloc(a *ssa.Alloc) bool {
 func (fr *Frame) coerce(v *Val, t types.Type) *Val { return v }
 
 func (fr *Frame) zeroArray(st *State, ref *Term, et types.Type, n *Term) {
-	if _, ok := et.Underlying().(*types.Struct); ok && !isOpaque(et) {
-		return // struct elements live at elem(ref,i); zeroing not modelled (values unknown)
-	}
 	h := Heap{st: st, log: curLog}
 	z := flatten(zeroVal(et))
 	cs := comps(et)
@@ -289,7 +289,7 @@ func (fr *Frame) execUnOp(st *State, x *ssa.UnOp) *Val {
 		if g := c.fieldGuard(a); g != nil {
 			fr.guardCheck(st, x, g, false, "load")
 		} else if a.Guard != nil {
-			fr.guardCheck(st, x, a.Guard, false, "elemload")
+			fr.guardCheckC(st, x, a.Guard, false, "elemload", a.Ref)
 		}
 		return c.loadAddr(st, a, x.Type())
 	case token.NOT:
@@ -615,7 +615,7 @@ func (fr *Frame) execLookup(st *State, x *ssa.Lookup) *Val {
 		return scalar(x.Type(), SAt(m.X, k.X))
 	}
 	mt := x.X.Type().Underlying().(*types.Map)
-	fr.guardCheck(st, x, m.Guard, false, "lookup")
+	fr.guardCheckC(st, x, m.Guard, false, "lookup", m.X)
 	has := And(Neq(m.X, Num(0)), c.mapHas(st, m.X, mt, k))
 	v := c.mapGet(st, m.X, mt, k)
 	v = iteVal(has, v, zeroVal(mt.Elem()))
@@ -706,7 +706,7 @@ func (fr *Frame) execRange(st *State, x *ssa.Range) *Val {
 	// iterator token: for maps we keep a ghost "visited" set per Range instruction
 	it := Fresh("iter", SInt)
 	if _, ok := x.X.Type().Underlying().(*types.Map); ok {
-		fr.guardCheck(st, x, fr.get(st, x.X).Guard, false, "range")
+		fr.guardCheckC(st, x, fr.get(st, x.X).Guard, false, "range", fr.get(st, x.X).X)
 		vis := "v:" + fr.rangeKey(x)
 		st.hset(vis, App("emptyset", SArr(SInt, SBool)))
 		fr.rangeMaps[x] = fr.get(st, x.X)
@@ -743,7 +743,7 @@ func (fr *Frame) execNext(st *State, x *ssa.Next) *Val {
 		efail("Next without Range")
 	}
 	mt := rg.X.Type().Underlying().(*types.Map)
-	fr.guardCheck(st, x, m.Guard, false, "next")
+	fr.guardCheckC(st, x, m.Guard, false, "next", m.X)
 	vis := "v:" + fr.rangeKey(rg)
 	vs := st.hget(vis, SArr(SInt, SBool))
 	has, _, _ := mapNames(mt)
